@@ -60,6 +60,7 @@ class DepsCheck(Check):
                  "into the real code; recorded answers/projections validated by the TLA+ trace specification")
     trusted = ["Go harness: synthetic instruction builder, projection, verif-tagged edge export", "TLC, CommunityModules Json"]
     mc = [("Deps_MC", "Deps_MC")]
+    mc_thorough = [("Deps_MC", "Deps_MC_len4")]
     whys = None
 
     def stateful(self):
